@@ -26,17 +26,28 @@ PARTIAL = {
     "C03": "proved for all inputs: CJJ14.PiBas / PiPack key/token/EDB/result round trips and config parsing; bounded stand-in only: the other seven schemes and the server-side composition",
     "C05": "proved for all inputs: CJJ14.PiBas |D| == N, CJJ14.PiPack |D| == number of blocks, and the table builder's size; bounded stand-in only: the other seven schemes and value-length uniformity",
     "C06": "proved for all inputs: the label-table builders of CJJ14.PiBas / PiPack store labels in strictly ascending order (modulo B3); bounded stand-in only: the other builders and array placement",
-    "C07": "proved for all inputs: CJJ14.PiBas / PiPack _Enc/_Trap/_Search mutate nothing reachable from their arguments (frame obligations); bounded stand-in only: the other seven schemes and the history claim",
+    "C07": "proved for all inputs: for all nine schemes, KeyGen/EDBSetup/TokenGen/Search and _Gen/_Enc/_Trap/_Search (with every function they call, transitively) mutate nothing reachable from their arguments or from self -- frame contracts decided by the ownership pass (pyvc/own.py: abstract interpretation of the real AST, one obligation per mutating statement); for CJJ14.PiBas / PiPack the same frame obligations are also discharged by the SMT engine together with the functional contracts; bounded stand-in only: the history claim (results independent of earlier operations) and value-level equality of arguments before/after",
     "C08": "proved for all inputs: CJJ14.PiBas / PiPack _parse_config exact refusal conditions; bounded stand-in only: the configuration grid of the property over all nine schemes",
 }
 
-PARTIAL["C04"] = "proved: AESxCBC.Encrypt's output is iv || CBC(pkcs7(m)) with a 16-byte IV (C14) and CJJ14.PiBas stores only PRF outputs as labels and Encrypt outputs as values (Repr); bounded stand-in only: substring absence and ciphertext-block freshness over all nine schemes"
+PARTIAL["C04"] = "proved: for all nine schemes, every byte string reachable from what _Enc returns (the index) and from what _Trap returns (the token) is the output of a PRF/PRP/SKE under a secret (key-derived) key, a hash of such an output, an XOR mask with one, random bytes or a public value -- provenance contracts decided by the labelled ownership pass over the real AST (SSE-2 index values may be identifiers, as the property allows; key material itself never flows into index or token); AESxCBC.Encrypt's output is iv || CBC(pkcs7(m)) with a fresh 16-byte IV (C14); CJJ14.PiBas/PiPack additionally by the SMT engine (Repr). NOT decided (assumed A2/A4): that such outputs do not contain a keyword by chance. Bounded stand-in: substring absence and ciphertext-block freshness over all nine schemes"
 PARTIAL["C10"] = "proved for all inputs: Service.handle_upload_config / handle_upload_encrypted_database / handle_search_token / close_service against a ghost disk and message trace (exact guards, effects, frame, invariant mem.state == disk.state, refused requests change nothing and reply ok=False); trusted: FileManager functions (D1 model), lazy loaders, Service.__init__; bounded stand-in: message histories against the 3-state model on the real connection handler"
 PARTIAL["C11"] = "proved for all inputs: the ten ClientServiceState flag helpers (set/clear/test exactly one bit) and the server-state resynchronisation (touches only the two upload flags); bounded stand-in: client operation histories against the 5-flag reference model with a live loopback server, key write-once, rejected configurations"
 PARTIAL["C13"] = "proved for all inputs: the server handlers keep mem.state == recorded state and write config before the state record (contracts over the ghost disk); the client resynchronisation recovers both upload flags from the init echo; bounded stand-in: every file-system mutation of the seven persisting steps, kill before/after, restart, finish the workflow (in-process kill simulation)"
 PARTIAL["C09"] = "proved for all inputs: server handlers store exactly the received bytes and report/guard by the recorded state; client resynchronisation; bounded stand-in: the documented workflow over loopback websockets for all nine schemes with client re-creation and server restarts; the end-to-end composition lemma is not mechanised"
 PARTIAL["C19"] = "proved for all array lengths, item sizes, chunk sizes and indices over the ghost file system (D2): index -> (file, offset) mapping and lazy file cache, int reads/writes with negative indices against the abstract view (a list of left-zero-padded items; unwritten regions read as zeros), slice reads with any start/stop/step, iteration, element deletion and clear (zero fill), exact exception conditions with no effect on any file, create/reopen through the meta file, typestate closed => every operation raises ValueError, only the array's own chunk files are ever created or changed, client lemma write->close->reopen; bounded stand-in only: slice assignment with rollback, slice deletion, membership, from_list, release, and mixed operation histories against a list model"
 PARTIAL["C20"] = "proved for all inputs over the ghost file system (D2) and pickle round trip (P1): every PickledDict operation equals dict's and touches no file; sync/close leave exactly pickle(contents) in the file and install the closed marker (typestate); open recovers the contents; from_dict copies; create on an existing / open on a missing path refuse; every operation on a closed dictionary raises ValueError; client lemmas close->reopen, sync->open, from_dict independence, close twice; bounded stand-in only: DBMDict / BytesShelf (one session) and mixed operation histories against a dict model"
+
+SCHEME_CLASSES = [("schemes/CJJ14/PiBas/construction.py", "PiBas"), ("schemes/CJJ14/PiPack/construction.py", "PiPack"),
+                  ("schemes/CJJ14/PiPtr/construction.py", "PiPtr"), ("schemes/CJJ14/Pi2Lev/construction.py", "Pi2Lev"),
+                  ("schemes/CT14/Pi/construction.py", "Pi"), ("schemes/ANSS16/Scheme3/construction.py", "Pi"),
+                  ("schemes/DP17/Pi/construction.py", "Pi"), ("schemes/CGKO06/SSE1/construction.py", "SSE1"),
+                  ("schemes/CGKO06/SSE2/construction.py", "SSE2")]
+OWN_FRAMES = ["%s:%s.%s" % (rel, cls, m) for rel, cls in SCHEME_CLASSES
+              for m in ("_Gen", "_Enc", "_Trap", "_Search", "KeyGen", "EDBSetup", "TokenGen", "Search")]
+
+PROV_CONTRACTS = [("%s:%s.%s" % (rel, cls, m), roles, (["id"] if (cls == "SSE2" and m == "_Enc") else []))
+                  for rel, cls in SCHEME_CLASSES for m, roles in (("_Enc", ["self", "key", "db"]), ("_Trap", ["self", "key", "kw"]))]
 
 PROPS = {
     "C17": dict(modules=["toolkit_bytes"], assumptions=A_ENGINE + [
@@ -48,10 +59,10 @@ PROPS = {
     "C02": dict(modules=["pibas", "pipack", "sse_bounded"], assumptions=A_SSE, bounded=[], partial=PARTIAL["C02"], runtime_checks=[["sse_bounded", "rt_c01_c02"]]),
     "C03": dict(modules=["pibas", "pipack", "sse_bounded"], assumptions=A_SSE, bounded=[], partial=PARTIAL["C03"], runtime_checks=[["sse_bounded", "rt_c03"]]),
     "C04": dict(modules=["pibas", "pipack", "sse_bounded"], assumptions=A_SSE + ["A4/A2 (NOT decided): absence of chance substrings / collisions is probabilistic"], bounded=[],
-                partial=PARTIAL["C04"], runtime_checks=[["sse_bounded", "rt_c04"]]),
+                partial=PARTIAL["C04"], runtime_checks=[["sse_bounded", "rt_c04"]], prov_contracts=PROV_CONTRACTS),
     "C05": dict(modules=["pibas", "pipack", "sse_bounded"], assumptions=A_SSE, bounded=[], partial=PARTIAL["C05"], runtime_checks=[["sse_bounded", "rt_c05"]]),
     "C06": dict(modules=["pibas", "pipack", "sse_bounded"], assumptions=A_SSE, bounded=[], partial=PARTIAL["C06"], runtime_checks=[["sse_bounded", "rt_c06"]]),
-    "C07": dict(modules=["pibas", "pipack", "sse_bounded"], assumptions=A_SSE, bounded=[], partial=PARTIAL["C07"], runtime_checks=[["sse_bounded", "rt_c07"]]),
+    "C07": dict(modules=["pibas", "pipack", "sse_bounded"], assumptions=A_SSE, bounded=[], partial=PARTIAL["C07"], runtime_checks=[["sse_bounded", "rt_c07"]], own_frames=OWN_FRAMES),
     "C08": dict(modules=["pibas", "pipack", "sse_bounded"], assumptions=A_SSE, bounded=[], partial=PARTIAL["C08"], runtime_checks=[["sse_bounded", "rt_c08"]]),
     "C19": dict(modules=["persist", "persist_bounded"], assumptions=A_ENGINE + ["D2: ghost file system (pyvc/files.py): open/seek/read/write/close, os.path.exists, os.unlink, pickle.dump/load on a file object as documented; sparse writes zero-fill; buffering transparent", "P1: pickle round trip of the meta tuple", "B5: collections.abc.Sequence.__iter__ is the documented loop over __getitem__ until IndexError (restated as ghost code and verified)", "cidx_def: conservative inverse of the (proved injective) chunk-path function"], bounded=[],
                 partial=PARTIAL["C19"], runtime_checks=[["persist_bounded", "rt_c19"]]),
